@@ -18,6 +18,9 @@
 3. Damage sweep: every damage class x API x position; a damaged line must
    not change the result for the other lines (DamagedLineIsLocal on the
    real code).
+3b. Histories: 2-3 lookups / validate() calls one after the other on ONE
+   loaded object (known_hosts and authorized_keys); each must equal the
+   lookup on a freshly loaded object (HistoryFree).
 4. Second opinion (advisory): `ssh-keygen -F` on a sample of the known_hosts
    cases; it can veto a violation (spec != ssh-keygen => reported as a model
    divergence) but never raises one.
@@ -740,6 +743,10 @@ def _main(real_ctx, tf, workdir):
         'quotes); a malformed option string rejects the whole file '
         '(ValueError) by design',
         'hashed names: HMAC-SHA1 treated as injective',
+        'a loaded SSHKnownHosts / SSHAuthorizedKeys object is immutable: '
+        'histories of 2-3 lookups on one object (consecutive lookups differ) '
+        'must each give what a freshly loaded object gives (HistoryFree; '
+        'variant IndexAliased = seed C17-r10)',
     ]
 
 
